@@ -3209,7 +3209,10 @@ typename SPxSimplifier<R>::Result SPxMainSM<R>::simplifyCols(SPxLPBase<R>& lp, b
 
          R val;
 
-         if(lp.maxObj(j) > R(0.0))
+         // (the objective coefficient is the reduced cost of an empty column and may be the rounding residue of earlier
+         // substitutions: compare with the optimality tolerance, as the dual reductions do, instead of declaring the LP
+         // unbounded because of 2e-16)
+         if(GT(lp.maxObj(j), R(0.0), opttol()))
          {
             if(lp.upper(j) >= R(infinity))
             {
@@ -3219,7 +3222,7 @@ typename SPxSimplifier<R>::Result SPxMainSM<R>::simplifyCols(SPxLPBase<R>& lp, b
 
             val = lp.upper(j);
          }
-         else if(lp.maxObj(j) < R(0.0))
+         else if(LT(lp.maxObj(j), R(0.0), opttol()))
          {
             if(lp.lower(j) <= R(-infinity))
             {
@@ -3231,7 +3234,7 @@ typename SPxSimplifier<R>::Result SPxMainSM<R>::simplifyCols(SPxLPBase<R>& lp, b
          }
          else
          {
-            assert(isZero(lp.maxObj(j), this->epsZero()));
+            assert(isZero(lp.maxObj(j), opttol()));
 
             // any value within the bounds is ok
             if(lp.lower(j) > R(-infinity))
